@@ -12,8 +12,8 @@ namespace vh
         template <class G>
         long long dq_of(const G&, double d, int dsc)
         {
-            double d2 = d * d;
-            return (std::isfinite(d2) && d2 < 2.0e9) ? std::llround(std::ldexp(d2, -2 * dsc)) : -1;
+            double d2 = std::ldexp(d * d, -2 * dsc);   // in units of 4^sc: small integers whatever the scale
+            return (std::isfinite(d2) && d2 < 2.0e9) ? std::llround(d2) : -1;
         }
 
         template <class G>
